@@ -28,7 +28,11 @@ SSeqs(S, n) == IF n = 0 THEN {<<>>} ELSE {<<x>> \o s : x \in S, s \in SSeqs(S, n
 
 (* element k (1-based, canonical order) of a saved array has the value 1000 + k *)
 MkArr(sh, fi) == [shape |-> sh, first |-> fi, val |-> [k \in 1..Prod(sh) |-> 1000 + k]]
-Arrays == {MkArr(sh, fi) : sh \in SSeqs(0..SMaxExt, SD), fi \in SSeqs(SBases, SD)}
+(* WIDE stands for an extent of 2^31 + 5 (TLC's integers are 32-bit: the driver substitutes the number).  Only arrays without  *)
+(* elements carry it (a zero extent in another dimension): no storage is involved, only the extensions travel through the archive *)
+WIDE == -1
+WideArrays == IF SD < 2 THEN {} ELSE {MkArr([d \in 1..SD |-> IF d = 1 THEN 0 ELSE IF d = SD THEN WIDE ELSE 1], [d \in 1..SD |-> 0])}
+Arrays == {MkArr(sh, fi) : sh \in SSeqs(0..SMaxExt, SD), fi \in SSeqs(SBases, SD)} \cup WideArrays
 
 (* the target before loading: empty, same extents (other contents), same sizes shifted, same count reshaped, different extents *)
 PriorOf(a, p) ==
